@@ -71,6 +71,14 @@ CHECKS = {
         note="SQLite stands for RDB; in-process gRPC stub; thread interleavings inside one cached client are explored by C03's cached / grpc(mem) configurations.",
         design="3/C08",
     ),
+    "C09": dict(
+        engine="seqx",
+        category="model_checking",
+        technique="differential enumeration of the full finite product sampler x pruner x program x seed x storage x split, oracle = the single-call in-memory run",
+        text="For every compatible combination of 8 samplers (GP in thorough), 6 pruners, 10 deterministic define-by-run programs (conditional spaces, reports with pruning, a failing trial, dynamic ranges, 2 objectives, finite spaces), 2 seeds: the 10-trial sequence of (params, intermediate values, state, values) must be identical when repeated, when split into 4+6, 1+9 or 3+3+4 optimize calls, and on every storage (journal file, gRPC proxy over in-memory and cached RDB, cached RDB, each also pre-loaded with another study so that trial ids are offset); copy_study over all ordered pairs of 5 backends must reproduce every trial field and study attribute.",
+        note="Sequential optimize, deterministic objectives; SQLite stands for RDB; in-process gRPC stub; CMA-ES not installed.",
+        design="3/C09",
+    ),
     "C11": dict(
         engine="seqx-lattice",
         category="exploration",
@@ -86,6 +94,14 @@ CHECKS = {
         text="All ordered tuples of n trial kinds (COMPLETE x {-inf,0,1,inf} x constraint, PRUNED with the best possible value, FAIL, RUNNING), both directions, created as templates and as RUNNING trials finished in every permutation, on in-memory, journal file, gRPC proxy, raw SQLite RDB, cached RDB and proxy-over-cached; multi-objective: all value vectors over {-inf,0,1,inf}^d and all direction vectors. best_trial/best_value/best_trials/storage.get_best_trial are compared with a brute-force scan of study.trials.",
         note="n=3 on fast backends, 2 on SQLite-backed ones (quick); ties accept any arg-best member; mixed constrained/unconstrained histories are out (statement leaves them open).",
         design="3/C12",
+    ),
+    "C13": dict(
+        engine="seqx",
+        category="model_checking",
+        technique="differential enumeration of mirrored study pairs (maximise f vs minimise -f, every flipped subset of objectives) over the full product sampler x pruner x program x seed with exactly representable (dyadic, pairwise distinct) values",
+        text="For 9 samplers (10 with GP in thorough) x 8 pruners (Threshold mirrored) x 12 programs whose objective and intermediate values are pairwise distinct dyadic rationals x seeds x every base direction vector x every non-empty flipped subset: both runs must have identical params, states, number of reported steps (= pruning step), sign-flipped values and the same best trial(s); an empty-flip control pair must be identical (else internal error); each pruner must actually prune in some pairs (vacuity guard).",
+        note="In-memory storage; values are dyadic so negation/means/percentiles are exact; ties are rejected and counted (0 on this tree).",
+        design="3/C13",
     ),
     "C15": dict(
         engine="seqx-lattice",
@@ -128,7 +144,7 @@ ENGINES = [
          kind_free_text="bounded-exhaustive enumeration of finite argument lattices with exact or reference oracles"),
     dict(name="thx", path="vf/thx.py", serves_properties=["C03", "C04"],
          kind_free_text="stateless exploration of thread interleavings of the real code under a controlled scheduler, preemption-bounded"),
-    dict(name="seqx", path="vf/c01.py", serves_properties=["C01", "C02", "C06", "C08", "C12", "C17", "C20"],
+    dict(name="seqx", path="vf/c01.py", serves_properties=["C01", "C02", "C06", "C08", "C09", "C12", "C13", "C17", "C20"],
          kind_free_text="bounded-exhaustive explicit-state search over operation sequences of the real code with reference-model / brute-force oracles"),
 ]
 
